@@ -41,6 +41,11 @@ func c12Bases() []c12Base {
 	add("r:no-store", 200, []string{"no-store", "max-age=10"}, "304", s(0), s(1))
 	add("r:no-cache", 200, []string{"no-cache", "max-age=10"}, "304", s(0), s(1), s(1))
 	add("r:no-cache-fields", 200, []string{`no-cache="X-Extra"`, "max-age=10"}, "304", s(0), s(1), s(20))
+	// both forms of no-cache in one field (RFC 9111 5.2.2.4): the unqualified form
+	// covers the whole response wherever it stands; field lists add up
+	add("r:no-cache+no-cache-fields", 200, []string{"no-cache", `no-cache="X-Extra"`, "max-age=10"}, "304", s(0), s(1), s(1))
+	add("r:no-cache-fields+no-cache", 200, []string{`no-cache="X-Extra"`, "no-cache", "max-age=10"}, "304", s(0), s(1), s(1))
+	add("r:no-cache-fields-twice", 200, []string{`no-cache="X-Other"`, `no-cache="X-Extra"`, "max-age=10"}, "304", s(0), s(1), s(20))
 	add("r:must-revalidate", 200, []string{"must-revalidate", "max-age=10"}, "304", s(0), s(5), s(10, "max-stale"), s(1, "max-stale=100"))
 	add("r:must-revalidate+503", 200, []string{"must-revalidate", "max-age=10", "stale-if-error=100"}, "503", s(0), s(20), s(1))
 	add("r:max-age=0", 200, []string{"max-age=0"}, "304", s(0), s(0), s(1))
@@ -83,7 +88,7 @@ type c12Rewrite struct {
 	Seed  uint64   `json:"seed"`
 }
 
-var c12Kinds = []string{"case", "ows", "empty", "quoted-delta", "token-fields", "split-lines", "order", "extensions", "quoted-pair"}
+var c12Kinds = []string{"case", "ows", "empty", "quoted-delta", "token-fields", "split-lines", "order", "extensions", "quoted-pair", "dup", "no-cache-both"}
 
 func rewriteCC(dirs []string, rw c12Rewrite) []string {
 	if len(dirs) == 0 {
@@ -101,6 +106,23 @@ func rewriteCC(dirs []string, rw c12Rewrite) []string {
 	ds := append([]string(nil), dirs...)
 	if has("order") {
 		r.Shuffle(len(ds), func(i, j int) { ds[i], ds[j] = ds[j], ds[i] })
+	}
+	if has("dup") {
+		// one directive repeated verbatim: the copy says what the original says
+		k := r.IntN(len(ds))
+		pos := r.IntN(len(ds) + 1)
+		ds = append(ds[:pos], append([]string{ds[k]}, ds[pos:]...)...)
+	}
+	if has("no-cache-both") {
+		// next to an unqualified no-cache a qualified one adds nothing (RFC 9111
+		// 5.2.2.4: the unqualified form already covers the whole response)
+		for _, d := range ds {
+			if d == "no-cache" {
+				pos := r.IntN(len(ds) + 1)
+				ds = append(ds[:pos], append([]string{pick(r, []string{`no-cache="X-Extra"`, `no-cache="X-Absent"`, `no-cache="X-Extra, ETag"`})}, ds[pos:]...)...)
+				break
+			}
+		}
 	}
 	for i, d := range ds {
 		name, arg, hasArg := strings.Cut(d, "=")
